@@ -295,21 +295,34 @@ def _r4_buffer(run):
         return isinstance(e, ast.Attribute) and e.attr == "_buf" and isinstance(e.value, ast.Name) and e.value.id == "self"
 
     reports = []
+    unknown_tests = []
 
     def transfer(n, st, lab):
         st = set(st)
         if n.kind == "if":
             test = n.ast.test
-            # refinement by `self._buf is None` / `is not None` (also as a conjunct)
+            # refinement by `self._buf is None` / `is not None` / `not (...)` / truthiness (also as a conjunct)
             tests = test.values if isinstance(test, ast.BoolOp) and isinstance(test.op, ast.And) else [test]
             for t in tests:
+                neg = False
+                while isinstance(t, ast.UnaryOp) and isinstance(t.op, ast.Not):
+                    neg = not neg
+                    t = t.operand
+                nonnull = None    # True: the test holds iff buffer is not None
                 if isinstance(t, ast.Compare) and is_buf(t.left) and len(t.ops) == 1 and isinstance(t.comparators[0], ast.Constant) \
-                        and t.comparators[0].value is None and isinstance(t.ops[0], (ast.Is, ast.IsNot)):
-                    isnot = isinstance(t.ops[0], ast.IsNot)
+                        and t.comparators[0].value is None and isinstance(t.ops[0], (ast.Is, ast.IsNot, ast.Eq, ast.NotEq)):
+                    nonnull = isinstance(t.ops[0], (ast.IsNot, ast.NotEq))
+                elif is_buf(t):
+                    nonnull = True
+                elif any(is_buf(x) for x in ast.walk(t)):
+                    unknown_tests.append(n)
+                if nonnull is not None:
+                    if neg:
+                        nonnull = not nonnull
                     if lab == "T":
-                        st = (st - {"None"}) if isnot else (st & {"None"})
+                        st = (st - {"None"}) if nonnull else (st & {"None"})
                     elif lab == "F" and len(tests) == 1:
-                        st = (st & {"None"}) if isnot else (st - {"None"})
+                        st = (st & {"None"}) if nonnull else (st - {"None"})
                     if not st:
                         return None
             return frozenset(st)
@@ -337,6 +350,10 @@ def _r4_buffer(run):
                 final[nn.id] = (nn, st)
     if not final:
         run.undecided("C02.R4", f, None, "no update of self._buf found", kind="no-update")
+        return
+    if unknown_tests:
+        run.undecided("C02.R4", f, unknown_tests[0].ast, "a branch tests the mosaic buffer in a way the typestate analysis cannot refine (%s)" %
+                      ast.unparse(unknown_tests[0].ast.test)[:100], kind="buffer-test")
         return
     for nid, (n, st) in sorted(final.items()):
         bad = set(st) - {"Clean", "Merged"}
